@@ -10,9 +10,12 @@
 (*                                   into the HPACK table and reports it   *)
 (*   [k |-> "ref"]                   block that references table entry 62  *)
 (*   [k |-> "zero"]                  block that sets the table size to 0   *)
+(*   [k |-> "zerofail"] / [k |-> "insfail", e |-> x]   block that changes  *)
+(*                                   the table and then fails to decode    *)
 (* The only state of this abstraction is the HPACK dynamic table: one per  *)
 (* connection in the design; ONE FOR THE WHOLE INSTANCE under the recorded *)
-(* deviation D07_shared_hpack.                                             *)
+(* deviation D07_shared_hpack; one for the instance that is reset only     *)
+(* after a successful decode under the seeded D07_reset_on_success.        *)
 (***************************************************************************)
 EXTENDS Integers, Sequences, FiniteSets
 
@@ -22,6 +25,10 @@ StepOn(s, t) ==
     [] s.k = "ins"   -> [out |-> <<"hdr", s.e>>, t |-> [t EXCEPT !.tab = IF t.cap = 0 THEN <<>> ELSE <<s.e>> \o @]]
     [] s.k = "ref"   -> [out |-> IF Len(t.tab) > 0 THEN <<"hdr", t.tab[1]>> ELSE <<"undecodable">>, t |-> t]
     [] s.k = "zero"  -> [out |-> <<"none">>, t |-> [tab |-> <<>>, cap |-> 0]]
+    [] s.k = "zerofail" -> [out |-> <<"undecodable">>, t |-> [tab |-> <<>>, cap |-> 0]]
+    [] s.k = "insfail"  -> [out |-> <<"undecodable">>, t |-> [t EXCEPT !.tab = IF t.cap = 0 THEN <<>> ELSE <<s.e>> \o @]]
+\* a block that does not decode (by kind, or a reference into an empty table)
+Fails(s, t) == s.k \in {"zerofail", "insfail"} \/ (s.k = "ref" /\ Len(t.tab) = 0)
 Fresh == [tab |-> <<>>, cap |-> 1]
 
 \* outputs of a script run alone
